@@ -285,7 +285,8 @@ coap_ws_split_rd_header(coap_session_t *session) {
   if (!cp)
     cp = strchr((char *)session->ws->http_hdr, '\t');
 
-  if (!cp)
+  if (!cp || cp == (char *)session->ws->http_hdr)
+    /* No separator, or no header name in front of it (folded line) */
     return NULL;
 
   *cp = '\000';
